@@ -16,7 +16,7 @@ PLAN = {
     'C09': dict(level='proof', engines=['chordnative', 'keynative', 'tasknative']),
     'C10': dict(level='proof', engines=['chordre']),
     'C11': dict(level='proof', engines=['chordnative']),
-    'C12': dict(level='proof', engines=['sumlib', 'segnative', 'hiernative']),
+    'C12': dict(level='proof', engines=['sumlib', 'segnative', 'hiernative', 'chordevalnative']),
     'C13': dict(level='proof', engines=['intervalsnative']),
     'C14': dict(level='proof', engines=['tasknative']),
     'C16': dict(level='proof', engines=['forward', 'segnative']),
